@@ -2543,14 +2543,26 @@ fn compare_bigint(a: &BigInt, b: &BigInt) -> Ordering {
             .digits
             .len()
             .cmp(&b.digits.len())
-            .then_with(|| a.digits.cmp(&b.digits)),
+            .then_with(|| compare_digits_msb_first(&a.digits, &b.digits)),
         (Sign::Negative, Sign::Negative) => a
             .digits
             .len()
             .cmp(&b.digits.len())
-            .then_with(|| a.digits.cmp(&b.digits))
+            .then_with(|| compare_digits_msb_first(&a.digits, &b.digits))
             .reverse(),
     }
+}
+
+/// Compares two little-endian magnitudes of the same length, most significant digit first.
+fn compare_digits_msb_first(a: &[u8], b: &[u8]) -> Ordering {
+    let mut i = a.len().min(b.len());
+    while i > 0 {
+        i -= 1;
+        if a[i] != b[i] {
+            return a[i].cmp(&b[i]);
+        }
+    }
+    Ordering::Equal
 }
 
 fn bigint_to_u64(big: &BigInt) -> u64 {
